@@ -6,7 +6,6 @@ From Coq Require Import String.
 From Coq Require Import List Bool Arith NArith ZArith.
 Import ListNotations.
 Require Import Str Rx RxFacts AsModel G_as_num TextModel TextProofs.
-Require PyLib G_fn_sir RefAs.
 
 Theorem C11_block_preserved_for_every_hash_value :
   forall h asn : Z, (0 <= h)%Z -> (0 <= asn <= 4294967295)%Z ->
@@ -25,18 +24,6 @@ Proof. exact as_regex_non_nullable. Qed.
 Example C11_range_ends : as_repl 0 65000 = AsOk 64512%Z /\ as_repl 1023 65000 = AsOk 65535%Z /\ as_repl 1024 65000 = AsOk 64512%Z.
 Proof. vm_compute. repeat split; reflexivity. Qed.
 
-(* TIE A (function level): the Gallina function GENERATED on this run from AsNumberAnonymizer._generate_as_number_replacement returns, for every
-   salt Python can encode and every numeral in range, the decimal text of a number of the same block *)
-Theorem C11_generated_replacement_function_preserves_the_block :
-  forall (py_call : PyLib.pyval -> PyLib.pyval -> PyLib.res) (fuel : nat) (self : PyLib.pyval) (salt numeral : str) (n : N) (h : Z),
-  PyLib.py_getattr self "salt" = PyLib.Normal (PyLib.VStr (RefAs.zs salt)) ->
-  parse_dec numeral = Some n -> (n <= 4294967295)%N -> hash_int salt numeral = Some h ->
-  exists r, G_fn_sir.gen_AsNumberAnonymizer___generate_as_number_replacement py_call fuel self (PyLib.VStr (RefAs.zs numeral))
-            = PyLib.Normal (PyLib.VTuple [PyLib.VStr (PyLib.nat_str 10 r); self])
-            /\ (0 <= r <= 4294967295)%Z /\ AsModel.block r = AsModel.block (Z.of_N n).
-Proof. exact RefAs.gen_as_replacement_preserves_block. Qed.
-
-Print Assumptions C11_generated_replacement_function_preserves_the_block.
 Print Assumptions C11_block_preserved_for_every_hash_value.
 Print Assumptions C11_out_of_range_rejected.
 Print Assumptions C11_hash_is_nonnegative.
